@@ -319,6 +319,25 @@ def readLog (st : LogState) (append : Bool) (lines : List Str) : Except Err LogS
       | .error e => .error e
       | .ok sims => .ok { sims := sims, version := version, date := date }
 
+/-! ### from the text of a log to its lines
+
+`for line in log_info` on the binary stream ends a line at `\n` and nowhere else (and so does LAMMPS, and the C parser
+of pandas for text that holds no lone `\r`).  The `\r` of a `\r\n` ending stays at the end of the line, where it is
+white space for `split()` / `strip()`.  The characters at which `str.splitlines()` would also break — `\x0b \x0c \x1c
+\x1d \x1e U+0085 U+2028 U+2029` — are ordinary characters of the line they stand in. -/
+
+/-- the lines of a text, terminators removed (a final `\n` leaves an empty last line: blank, skipped by everyone). -/
+def splitLines (t : Str) : List Str := splitOnChar '\n' t
+
+/-- lines → text, `\n` between them. -/
+def joinLines : List Str → Str
+  | [] => []
+  | [l] => l
+  | l :: ls => l ++ '\n' :: joinLines ls
+
+/-- `Log.read(text, append)` on the text itself. -/
+def readText (st : LogState) (append : Bool) (t : Str) : Except Err LogState := readLog st append (splitLines t)
+
 /-! ### Log.read on a caller-owned open stream
 
 `uber_open_rmode` passes an open binary stream through: the single pass iterates over it from wherever it stands,
